@@ -208,12 +208,12 @@ def bs_want_row(t, tk, degree, extrap, icpt, v):
 def _bs_want_row(t, degree, lb, ub, extrap, icpt, v):
     cut = (lambda row: list(row) if icpt else list(row[1:]))
     if t[-degree - 2] == t[-1] and (v == ub or (v > ub and extrap == "clip")):
-        # a df-quantile knot coincides with the upper bound, so the knot interval that ends at the boundary is empty.
-        # "Right boundary closed" can then be read as closing the last NON-EMPTY interval (limit from the left) or the
-        # last interval (R's splineDesign); the documentation does not say, so both rows are accepted.
-        a = cut(R.bspline_row(t, degree, ub))
-        b = cut(R.bspline_row_at_upper_end_closing_last_interval(t, degree))
-        return a if a == b else ("either", a, b)
+        # A df-quantile knot coincides with the upper bound, so the knot interval that ends at the boundary is empty
+        # and some basis functions have an empty support.  "Right boundary closed" can then be read as closing the
+        # last NON-EMPTY interval (limit from the left) or the (empty) last interval, which moves the unit mass at
+        # x = upper bound between columns; the documentation does not fix the reading, so only the convention-free
+        # facts (non-negative, sums to one) are demanded for this one point.
+        return UNSPEC
     if lb <= v <= ub:
         row = R.bspline_row(t, degree, v)
     elif extrap == "clip":
@@ -245,29 +245,21 @@ def bs_want(t, degree, extrap, icpt, xs):
             _BS_WANT.clear()
         lb, ub = tk[0], tk[-1]
         ncols = len(t) - degree - 1 - (0 if icpt else 1)
-        rows = [bs_want_row(t, tk, degree, extrap, icpt, v) for v in xs]
-        alts = {r: [np.array([float(a) for a in alt]) for alt in row[1:]] for r, row in enumerate(rows) if isinstance(row, tuple)}
-        W, nanrow = want_matrix([UNSPEC if isinstance(row, tuple) else row for row in rows], ncols)
-        inside = np.array([v is not None and lb <= float(v) <= ub for v in xs], dtype=bool) & (nanrow == 0)
-        _BS_WANT[k] = (W, nanrow, inside, alts)
+        W, nanrow = want_matrix([bs_want_row(t, tk, degree, extrap, icpt, v) for v in xs], ncols)
+        inside = np.array([v is not None and lb <= float(v) <= ub for v in xs], dtype=bool) & (nanrow != 1)
+        _BS_WANT[k] = (W, nanrow, inside)
     return _BS_WANT[k]
 
 
 def bs_rows_findings(M, x, t, degree, extrap, icpt, phase):
     """compare every row; at most one finding per (phase, failure class), carrying the first failing point"""
-    W, nanrow, inside, alts = bs_want(t, degree, extrap, icpt, tuple(x))
+    W, nanrow, inside = bs_want(t, degree, extrap, icpt, tuple(x))
     out, seen = [], set()
-    bad = bad_rows(M, W, nanrow)
-    for r, cands in alts.items():  # rows where either of two readings is accepted
-        if M.shape[1] and not any(np.all(np.abs(M[r] - w) <= TOL) for w in cands):
-            bad.append(r)
-            W = W.copy()
-            W[r] = cands[0]
-    for r in sorted(bad):
+    for r in bad_rows(M, W, nanrow):
         v = x[r]
         if v is None:
             sig = "bs-null-row-not-nan"
-        elif inside[r] or (r in alts and float(v) == float(t[-1])):
+        elif inside[r]:
             sig = "bs-value"
         else:
             sig = {"clip": "bs-clip-row", "na": "bs-na-row-not-nan", "zero": "bs-zero-row", "extend": "bs-extend-row"}[extrap]
@@ -279,8 +271,8 @@ def bs_rows_findings(M, x, t, degree, extrap, icpt, phase):
         out.append((" :: %s point=%s" % (phase, show(v)),
                     {"phase": phase, "point": fl(v), "got_row": M[r].tolist(),
                      "want_row": None if nanrow[r] == 1 else W[r].tolist()}, sig))
-    if alts:
-        out.append((None, None, "unspecified:closure-at-upper-bound-with-coincident-knot(either reading accepted)"))
+    if (nanrow == 2).any():
+        out.append((None, None, "unspecified:value-at-upper-bound-with-coincident-knot"))
     if M.shape[1] and inside.any():
         ins = M[inside]
         with np.errstate(invalid="ignore"):
